@@ -1191,7 +1191,7 @@ def min_depths(g: Graph, tips):
 
 
 def check_receiver(ctx, stream, world, case, path, before, shallow_before, transferred, allowed, res, depth=None,
-                   fsck=False, push=False, sender_shallow=False, fetch_all=False, depth_tips=None):
+                   fsck=False, push=False, sender_shallow=False, fetch_all=False, depth_tips=None, proto2=False):
     """The property's own words after a successful transfer into the repository at `path`:
       * it holds every object reachable from the transferred refs and from all its refs (through tag chains,
         gitlinks excluded), cut only at its recorded shallow commits; a depth-limited fetch may cut no earlier
@@ -1228,6 +1228,9 @@ def check_receiver(ctx, stream, world, case, path, before, shallow_before, trans
                 tips = {t for t in transferred if t in before}
                 if tips and missing <= g.closure(tips, shallow=shallow_after):
                     miss_cls = "fetchall-tip-present-closure-missing"
+            if proto2 and shallow_before and not depth and not push and after == before:
+                # nothing at all arrived although the fetch returned normally
+                miss_cls = "fetch-v2-shallow-receiver-nothing-received"
             if depth and not push:
                 md = min_depths(g, transferred if depth_tips is None else depth_tips)
                 unrecorded = {c for c, d in md.items() if d == depth and c in after and c not in shallow_after
@@ -1435,7 +1438,7 @@ def run_scenario(ctx, servers, sc, ops, stream="e2e"):
                 continue
             out = check_receiver(ctx, stream, world, case, dst, recv_ids, shallow, wants, allowed, res,
                                  depth=op.get("depth"), fsck=do_fsck, fetch_all=(kind == "fetchall"),
-                                 depth_tips=depth_tips)
+                                 depth_tips=depth_tips, proto2=(tr == "cgit-sub" and var.get("proto") == 2))
             recv_ids, shallow = out["after"], out["shallow"]
             if res.get("deltas"):
                 ctx.count(stream + ".thin-or-delta", (tag, len(out["new"])), True, tr)
